@@ -236,41 +236,127 @@ def run(tier):
     # through handlers/tal.py and its configuration option
     tree = [{"path": name, "data": text, "mtime": 1700000000} for name, text in HANDLER_TEMPLATES.items()]
     worlds = []
-    for label, val in (("no", "no"), ("false", "false"), ("0", "0"), ("yes", "yes"), ("absent", None)):
+    import configparser
+
+    def expected_gate(val):
+        """what ConfigParser.getboolean says: True / False / 'invalid'; absent = the handler's default (on)"""
+        if val is None:
+            return True
+        cp = configparser.ConfigParser()
+        cp.read_dict({"s": {"o": val}})
+        try:
+            return cp.getboolean("s", "o")
+        except ValueError:
+            return "invalid"
+    spellings = [None]
+    for base in ("1", "yes", "true", "on", "0", "no", "false", "off"):
+        for v in (base, base.upper(), base.capitalize(), "".join(c.upper() if i % 2 else c for i, c in enumerate(base))):
+            if v not in spellings:
+                spellings.append(v)
+    spellings += ["maybe", "2", "nope", "enabled", "disabled", "-1"]
+    if not thorough:
+        spellings = [None] + rng.sample(spellings[1:-6], 12) + ["False", "OFF", "No", "maybe", "2"]
+        spellings = list(dict.fromkeys(spellings))
+    for val in spellings:
         cfg = {"handlers.HandlerMultiplexer": {"handlers": HANDLERS}}
         if val is not None:
             cfg["handlers.tal.TALFileHandler"] = {"allowpythonpath": val}
-        worlds.append({"tree": tree, "config": cfg, "selectors": ["/" + n for n in HANDLER_TEMPLATES], "label": label})
+        worlds.append({"tree": tree, "config": cfg, "selectors": ["/" + n for n in HANDLER_TEMPLATES],
+                       "label": "absent" if val is None else val})
     hres = impl_run([{"op": "tal_handler", "worlds": worlds}])[0]
     if not hres["ok"]:
         raise RuntimeError(hres["err"] + hres.get("tb", ""))
-    hstats = {"requests": 0, "ran_while_disabled": 0, "ran_while_enabled": 0, "served": 0}
+    hstats = {"requests": 0, "spellings": len(spellings), "ran_while_disabled": 0, "ran_while_enabled": 0, "not_run_while_enabled": 0,
+              "served": 0, "invalid_value_requests": 0, "ran_with_invalid_value": 0}
     for h in hres["res"]:
         hstats["requests"] += 1
-        disabled = h["label"] in ("no", "false", "0")
+        want = expected_gate(None if h["label"] == "absent" else h["label"])
         uses_py = h["selector"] != "/plain.html.tal"
+        tpl = HANDLER_TEMPLATES[h["selector"][1:]]
+        conf = {"handlers.tal.TALFileHandler": ({} if h["label"] == "absent" else {"allowpythonpath": h["label"]})}
         if "<html>" in h["out"]:
             hstats["served"] += 1
         chk.count(("handler", h["label"], h["selector"]), nontrivial=uses_py)
-        if disabled and h["canary"]:
+        if want == "invalid":
+            hstats["invalid_value_requests"] += 1
+            if h["canary"] or "RAN" in h["out"]:
+                hstats["ran_with_invalid_value"] += 1
+                found = True
+                fnd.add("python-gate-handler",
+                        {"what": "TALFileHandler evaluated a python: expression although allowpythonpath has a value that "
+                                 "ConfigParser.getboolean rejects", "config": conf, "file": h["selector"], "template": tpl,
+                         "response_latin1": h["out"][:600], "canary": h["canary"]}, len(tpl))
+            continue
+        if want is False and (h["canary"] or (uses_py and "RAN" in h["out"])):
             hstats["ran_while_disabled"] += 1
             found = True
             fnd.add("python-gate-handler",
-                    {"what": "TALFileHandler evaluated a python: expression although allowpythonpath is off in the configuration",
-                     "config": {"handlers.tal.TALFileHandler": {"allowpythonpath": h["label"]}},
-                     "file": h["selector"], "template": HANDLER_TEMPLATES[h["selector"][1:]],
-                     "response_latin1": h["out"][:600], "canary": h["canary"]}, len(HANDLER_TEMPLATES[h["selector"][1:]]))
-        if not disabled and uses_py and h["canary"]:
-            hstats["ran_while_enabled"] += 1
-        if disabled and uses_py and "RAN" in h["out"]:
-            found = True
-            fnd.add("python-gate-handler", {"what": "value of a python: expression appears in the output with allowpythonpath off",
-                                            "file": h["selector"], "template": HANDLER_TEMPLATES[h["selector"][1:]],
-                                            "response_latin1": h["out"][:600]}, 10 ** 6)
-    if hstats["served"] != hstats["requests"] or hstats["ran_while_enabled"] == 0:
+                    {"what": "TALFileHandler evaluated a python: expression although allowpythonpath is off in the configuration "
+                             "(ConfigParser.getboolean reads this spelling as false)",
+                     "config": conf, "file": h["selector"], "template": tpl,
+                     "response_latin1": h["out"][:600], "canary": h["canary"]}, len(tpl))
+        if want is True and uses_py:
+            if h["canary"] and "RAN" in h["out"]:
+                hstats["ran_while_enabled"] += 1
+            else:
+                hstats["not_run_while_enabled"] += 1
+                found = True
+                fnd.add("python-gate-handler",
+                        {"what": "allowpythonpath is on (or absent: the documented default) but the python: expressions of the "
+                                 "served template were not evaluated", "config": conf, "file": h["selector"], "template": tpl,
+                         "response_latin1": h["out"][:600], "exception": h["exc"]}, 10 ** 6)
+    valid_requests = hstats["requests"] - hstats["invalid_value_requests"]
+    if hstats["served"] < valid_requests or hstats["ran_while_enabled"] == 0:
         found = True
         chk.violation({"what": "handler-level python gate check did not exercise the handler (harness problem)",
                        "stats": hstats, "first": hres["res"][:2]}, tag=None, no_input=True)
+
+    # ================= (d0) TAL-free documents SERVED by the real TALFileHandler =================
+    # request -> GopherRequestHandler -> HandlerMultiplexer -> TALFileHandler.canhandlerequest / getentry / write:
+    # the bytes on the wire are the UTF-8 encoding of what the engine alone writes for the file's text, and that is
+    # equivalent to the file itself (script / style / comment content byte for byte)
+    sdocs = []
+    for i in range(200 if thorough else 40):
+        src = talgen.gen_document(rng, maxdepth=min(maxdepth, 4), cdata=True)
+        if i % 2 == 0:
+            src += rng.choice(["<script>s = 'Gr\u00fc\u00df';</script>", "<style>a:after { content: '\u00e9\u2713' }</style>",
+                               "<!-- \u00fc\u00df -->", "<p title=\"\u00e9\">\u00fc \U0001F600</p>"])
+        sdocs.append(src)
+    stree = [{"path": "d%d.html.tal" % i, "data": src.encode("utf-8").decode("latin-1"), "mtime": 1700000000}
+             for i, src in enumerate(sdocs)]
+    sres = impl_run([{"op": "tal_handler", "worlds": [{"tree": stree, "config": {"handlers.HandlerMultiplexer": {"handlers": HANDLERS}},
+                                                        "selectors": ["/d%d.html.tal" % i for i in range(len(sdocs))],
+                                                        "label": "served", "direct": True}]}])[0]
+    if not sres["ok"]:
+        raise RuntimeError(sres["err"] + sres.get("tb", ""))
+    served_stats = {"documents": 0, "with_non_ascii": 0, "equal_to_engine_output": 0, "equivalent_to_file": 0, "engine_rejects": 0}
+    for src, h in zip(sdocs, sres["res"]):
+        if "direct" not in h:
+            served_stats["engine_rejects"] += 1
+            continue
+        served_stats["documents"] += 1
+        served_stats["with_non_ascii"] += 1 if any(ord(c) > 127 for c in src) else 0
+        chk.count(("served", src), nontrivial=any(ord(c) > 127 for c in src))
+        same = h["exc"] is None and h["out"] == h["direct"]
+        try:
+            text = h["out"].encode("latin-1").decode("utf-8")
+            equiv = talref.canon(text) == talref.canon(src)
+        except UnicodeDecodeError:
+            equiv = False
+        served_stats["equal_to_engine_output"] += 1 if same else 0
+        served_stats["equivalent_to_file"] += 1 if equiv else 0
+        if not (same and equiv):
+            found = True
+            fnd.add("passthrough-served",
+                    {"what": "a TAL-free .html.tal file served through TALFileHandler is not the file: " +
+                             ("the response differs from the UTF-8 encoding of the engine's own expansion of the file"
+                              if not same else "the response is not equivalent to the file"),
+                     "file_utf8": src, "response_latin1": h["out"], "engine_expansion_latin1": h["direct"], "exception": h["exc"],
+                     "handlers": HANDLERS}, len(src))
+    if served_stats["documents"] == 0 or served_stats["with_non_ascii"] == 0:
+        found = True
+        chk.violation({"what": "served-template leg did not serve anything (harness problem)", "stats": served_stats,
+                       "first": sres["res"][:1]}, tag=None, no_input=True)
 
     # ================= (d) TAL-free documents expanded twice =================
     doc_cases = []
@@ -366,7 +452,7 @@ def run(tier):
                              "output_function_cases": len(oin), "output_mismatches": len(mism_o),
                              "errors": [e for e in (err, err_t, err_e, err_o) if e]}
     cov["oracle"] = {"escaping": esc_stats, "context_snapshots": snap_stats, "python_gate": py_stats,
-                     "python_gate_via_handler": hstats, "passthrough": doc_stats, "programs_not_wf": notwf,
+                     "python_gate_via_handler": hstats, "passthrough": doc_stats, "passthrough_served": served_stats, "programs_not_wf": notwf,
                      "grammar_exclusions": tc.GRAMMAR_EXCLUSIONS}
     cov["rule"] = ("(b) templates without `structure` expanded under two contexts that differ only in string contents (benign vs "
                    "markup metacharacters, same lengths/emptiness): html.parser skeletons (element + attribute names) must agree; "
